@@ -1422,7 +1422,9 @@ def safe_retries(shape: Shape, plan: list[dict]) -> int:
     d = sum(p["times"] for p in plan if p["kind"] == "stop")
     # the tests use 10 for at most 8 roll-backs of one job; a job is rolled back once per failure of a
     # descendant (the "domino effect"), plus collateral failures after deletions
-    return max(10, 4 + f + 2 * d)
+    # (a producer shared by n jobs is rolled back once per job that fails after a deletion: a scatter of
+    # width 10 with one fail-stop legitimately takes the producer to version 10)
+    return max(10, 4 + f + d * (2 + len(shape.jobs())))
 
 
 def classify(rec, res: Result, view: View) -> None:
